@@ -9,6 +9,7 @@ Roles (CONVENTIONS.md):
                body separately at each element, Python `re` for the regex fragment)
 """
 from __future__ import annotations
+import contextlib
 import random
 import re as pyre
 from typing import Any, Dict, Iterable, List, Optional, Tuple
@@ -38,11 +39,26 @@ def dbl_bits(x: float) -> str:
 # ----------------------------------------------------------------------------------------------
 
 
+RAW_STR = [False]       # round 3: render printable non-ASCII code points of string literals as themselves (no backslash-u escape)
+
+
+@contextlib.contextmanager
+def raw_strings(on: bool):
+    old = RAW_STR[0]
+    RAW_STR[0] = bool(on)
+    try:
+        yield
+    finally:
+        RAW_STR[0] = old
+
+
 def cel_str(cps: List[int]) -> str:
     out = []
     for c in cps:
         ch = chr(c)
-        if ch == "\\":
+        if RAW_STR[0] and c >= 0xA1 and c not in (0x2028, 0x2029, 0xFEFF) and not 0xD800 <= c <= 0xDFFF:
+            out.append(ch)
+        elif ch == "\\":
             out.append("\\\\")
         elif ch == '"':
             out.append('\\"')
@@ -1358,6 +1374,182 @@ def bound_expr(g: "Gen", rng) -> Tuple[Any, Any]:
     return bind, e
 
 
+def path_cases(g: "Gen") -> List[Tuple[Any, Any, bool]]:
+    """(bindings, expression, as-JSON): field-selection PATHS of length 1..4 into nested maps (JSON-like documents:
+    `resource.Placement.Zone`).  `has(e.f)` and `e.f` look at the LAST field in the value of the whole operand chain
+    `e`: every prefix present and the last field present / absent / bound to null or to a falsy value, the absent name
+    often a key of another level; steps written `.f` or `["f"]`; the document a literal, a context variable (built
+    directly or through json_to_cel), a list element, a macro variable; `has(e.f)` iff `"f" in e`."""
+    r = g.rng
+    depth = r.randint(2, 4)
+    lk = r.choice([("i",), ("s",), ("b",), ("d",), ("L", ("i",)), ("n",)])
+    falsy = {"i": ["i", 0], "s": ["s", []], "b": ["b", False], "d": ["d", "0.0"], "L": ["L", []], "n": ["n"]}[lk[0]]
+
+    def tree(d):
+        names = r.sample(FIELDS, r.randint(1, 3 if d == depth or d == 1 else 2))
+        pairs = []
+        for i, nm in enumerate(names):
+            if r.random() < 0.12 and not (d > 1 and i == 0):
+                v = ["n"]
+            elif d > 1:
+                v = tree(d - 1)
+            else:
+                v = list(falsy) if r.random() < 0.4 else g.lit(lk, 1)
+            pairs.append([S(nm), v])
+        r.shuffle(pairs)
+        return ["M", pairs]
+
+    data = tree(depth)
+    nodes: List[Tuple[List[str], Any]] = []          # every map of the document with the path that leads to it
+
+    def collect(n, path):
+        nodes.append((path, n))
+        for kk, v in n[1]:
+            if v[0] == "M":
+                collect(v, path + ["".join(map(chr, kk[1]))])
+    collect(data, [])
+    x, y = r.sample(range(0, 7), 2)
+    mode = r.choice(["lit", "var", "json", "elem", "wrapped"])
+    bind = [[x, data]] if mode in ("var", "json") else None
+    base = {"lit": data, "var": ["v", x], "json": ["v", x], "elem": ["idx", ["L", [data]], ["i", 0]],
+            "wrapped": ["sel", [113], ["M", [[S("q"), data]]]]}[mode]
+
+    def chain(b, path, idx_p=0.2):
+        e = b
+        for nm in path:
+            e = ["idx", e, S(nm)] if r.random() < idx_p else ["sel", [ord(ch) for ch in nm], e]
+        return e
+
+    def pick():
+        """(path of the operand, its node, a field name, present?) — long operand chains preferred"""
+        path, node = r.choice([pn for pn in nodes for _ in range(1 + 3 * len(pn[0]))])
+        keys = ["".join(map(chr, kk[1])) for kk, _ in node[1]]
+        if keys and r.random() < 0.45:
+            return path, node, r.choice(keys), True
+        absent = [f for f in FIELDS + ["zz"] if f not in keys]
+        return path, node, r.choice(absent), False
+
+    out = []
+    for _ in range(6):
+        path, node, f, present = pick()
+        fc = [ord(ch) for ch in f]
+        O = chain(base, path)
+        form = r.randrange(9)
+        if form <= 2:
+            e = ["has", fc, O]
+        elif form == 3:
+            e = ["==", ["has", fc, O], ["in", S(f), chain(base, path)]]
+        elif form == 4:
+            e = ["sel", fc, O] if r.random() < 0.6 else ["==", ["sel", fc, O], ["idx", chain(base, path), S(f)]]
+        elif form == 5:
+            _, _, f2, _ = pick()
+            e = ["L", [["has", fc, O], ["has", [ord(ch) for ch in f2], chain(base, path)], ["in", S(f), chain(base, path)]]]
+        elif form == 6:
+            mk = r.choice(["map", "filter", "exists_one", "all", "exists"])
+            e = [mk, y, ["L", [base] * r.randint(1, 2)], ["has", fc, chain(["v", y], path)]]
+        elif form == 7:
+            e = ["?:", ["has", fc, O], ["sel", fc, chain(base, path)], list(falsy) if len(path) == depth - 1 else ["sel", fc, chain(base, path)]]
+        else:
+            e = ["size", ["filter", y, ["L", [S(ff) for ff in FIELDS]], ["in", ["v", y], O]]]
+        out.append((bind, e, mode == "json"))
+    return out
+
+
+# round 3: code points whose presence tells a sequence of code points from "text" — a base letter and the combining
+# mark it has a precomposed form with (e U+0301 / U+00E9, A U+030A / U+00C5 / the Angstrom sign U+212B), a pair with
+# no precomposed form (x U+0301), conjoining Hangul jamo / syllable, a composition-excluded letter (U+0958 = U+0915
+# U+093C), compatibility characters (the fi ligature, long s with dot, the Kelvin and Ohm signs), letters whose case
+# mappings change the length (sharp s, dotted / dotless i), invisible and white-space code points (NBSP, ZWSP, ZWJ)
+UNI_PAIRS = [[101, 0x301], [101, 0x308], [65, 0x30A], [0x1100, 0x1161], [0x915, 0x93C], [120, 0x301], [115, 0x323, 0x307],
+             [0x3A9], [0x2126], [0xE9], [0xC5], [0x212B], [0xAC00], [0x958], [0xFB01], [0x1E9B], [0x212A], [0xDF], [0x130], [0x131],
+             [0xA0], [0x200B], [0x200D], [0x1F600], [102, 105], [75], [105, 0x307]]
+UNI_MARKS = [0x301, 0x308, 0x30A, 0x1161, 0x93C, 0x323, 0x307]
+
+
+def ustr(g: "Gen", maxp: int = 3) -> List[int]:
+    r = g.rng
+    out: List[int] = []
+    for _ in range(r.randint(1, maxp)):
+        out += r.choice(UNI_PAIRS[:7]) if r.random() < 0.5 else r.choice(UNI_PAIRS)
+    return out
+
+
+def uni_variants(cps: List[int]) -> List[List[int]]:
+    """other code point sequences that some notion of "the same text" would identify with `cps`"""
+    import unicodedata
+    s = "".join(map(chr, cps))
+    vs = {unicodedata.normalize(f, s) for f in ("NFC", "NFD", "NFKC", "NFKD")}
+    vs |= {s.casefold(), s.lower(), s.upper(), s.strip(), s.replace("\u200b", "").replace("\u200d", "")}
+    vs.discard(s)
+    return sorted([ord(ch) for ch in v] for v in vs)
+
+
+def unicode_cases(g: "Gen") -> List[Tuple[Any, Any, bool, bool]]:
+    """(bindings, expression, as-JSON, raw source text): a CEL string is a sequence of code points, compared, measured,
+    searched and concatenated as such — never normalised (NFC/NFD/NFKC/NFKD), case-folded or trimmed.  Strings with
+    combining sequences and their precomposed / compatibility / case variants; concatenations whose seam separates a
+    base character from its mark; as literals (escaped or raw source text), context variables, JSON data, map keys,
+    list elements, macro variables, regex subjects."""
+    r = g.rng
+    s = ustr(g)
+    t = ustr(g, 2)
+    if r.random() < 0.5:                       # the seam of s + t falls between a base character and its mark
+        p = r.choice(UNI_PAIRS[:7])
+        s, t = s + p[:1], p[1:] + (t if r.random() < 0.5 else [])
+    vs = uni_variants(s)
+    v = r.choice(vs) if vs and r.random() < 0.8 else ustr(g)
+    st = s + t
+    stv = uni_variants(st)
+    w = r.choice(stv) if stv else st[::-1]
+    x, y, z = r.sample(range(0, 7), 3)
+    bound = r.random() < 0.4
+    as_json = bound and r.random() < 0.5
+    raw = (not bound) and r.random() < 0.35
+    bind = [[x, ["s", s]], [y, ["s", v]]] if bound else None
+    Ss, Sv, St = (["v", x], ["v", y], ["s", t]) if bound else (["s", s], ["s", v], ["s", t])
+    Z = ["v", z]
+    n = len(s)
+    dots = ["bol"]
+    for _ in range(n):
+        dots = ["cat", dots, ["any"]]
+    dots = ["cat", dots, ["eol"]]
+    cases = [
+        ["size", Ss],
+        ["==", ["msize", Ss], ["i", n]],
+        ["==", ["size", ["++", Ss, St]], ["+", ["size", Ss], ["size", St]]],
+        ["startsWith", ["++", Ss, St], Ss],
+        ["endsWith", ["++", Ss, St], St],
+        ["contains", ["++", ["++", Ss, St], Ss], St],
+        ["==", ["++", Ss, St], ["s", st]],
+        ["==", ["++", Ss, St], ["s", w]],
+        ["startsWith", Ss, ["s", s[:1]]],
+        ["endsWith", Ss, ["s", s[-1:]]],
+        ["contains", Ss, ["s", s[r.randrange(n):][:r.randint(1, 2)]]],
+        ["startsWith", Ss, ["s", v[:r.randint(1, len(v))]]] if v else ["size", Sv],
+        ["contains", Ss, Sv],
+        ["==", Ss, Sv],
+        ["!=", Ss, Sv],
+        ["in", Sv, ["L", [Ss]]],
+        ["in", Ss, ["L", [Sv, ["s", t]]]],
+        ["in", Sv, ["M", [[Ss, ["i", 1]]]]],
+        ["M", [[Ss, ["i", 1]], [Sv, ["i", 2]]]],
+        ["size", ["M", [[Ss, ["i", 1]], [Sv, ["i", 2]], [["s", t], ["i", 3]]]]],
+        ["idx", ["M", [[Ss, ["i", 1]], [Sv, ["i", 2]]]], Sv],
+        ["idx", ["M", [[Ss, ["i", 1]]]], Sv],
+        ["matches", ["cat", ["bol"], ["c", s[0]]], Ss],
+        ["matches", ["cat", ["c", s[-1]], ["eol"]], Ss],
+        ["matches", dots, Ss],
+        ["matches", ["cat", ["bol"], ["cat", ["c", v[0]], ["star", ["any"]]]] if v else ["eps"], Ss],
+        ["filter", z, ["L", [Ss, Sv]], ["==", Z, Ss]],
+        ["exists_one", z, ["L", [Ss, Sv, ["s", t]]], ["==", Z, Sv]],
+        ["map", z, ["L", [Ss, Sv, ["++", Ss, St]]], ["size", Z]],
+        ["all", z, ["L", [Ss, ["++", Ss, St]]], ["startsWith", Z, ["s", s[:1]]]],
+        ["map", z, ["L", [Ss, St]], ["++", Z, St]],
+        ["<", Ss, Sv],
+    ]
+    return [(bind, c, as_json, raw) for c in r.sample(cases, 12)]
+
+
 def _rename(e, a, b):
     if not isinstance(e, list):
         return e
@@ -1413,7 +1605,11 @@ class C09(Prop):
             "supplied by the evaluation context (built directly or through json_to_cel), macro variables that reuse a name in scope (a context variable, the "
             "enclosing macro's variable) with the outer name used again after the inner macro; ONE object on both sides of `in` / `==` (a variable used twice, "
             "an element taken from the list it is tested against, a macro variable ranging over the list; every NaN of an activation is the same object); "
-            "null in every position (select / index / has / in / macro bodies / branches). non-trivial = distinct case on which the reference semantics gives a verdict and "
+            "null in every position (select / index / has / in / macro bodies / branches). round 3: field-selection paths of length 1-4 into nested maps (every "
+            "prefix present, the last field present / absent / null / falsy, steps as .f or [\"f\"], document as literal / context variable / JSON / list element / "
+            "macro variable; has(e.f) against \"f\" in e); strings over combining sequences and their precomposed / compatibility / case variants (NFC, NFD, NFKC, "
+            "NFKD, case mappings), concatenations whose seam separates a base character from its mark, as escaped or raw literals, context variables, map keys, "
+            "regex subjects. non-trivial = distinct case on which the reference semantics gives a verdict and "
             "which uses at least one list/map/string/macro operation")
 
     def generate(self, rng, tier):
@@ -1436,13 +1632,15 @@ class C09(Prop):
                     cases.append({"kind": "expr", "runner": rn, "e": e})
         # round 2: variables supplied by the evaluation context, names bound at two levels, one object on both
         # sides of a comparison, null as an ordinary value
-        def add(bind, e, as_json=False):
+        def add(bind, e, as_json=False, raw=False):
             for rn in ("I", "C"):
                 c = {"kind": "expr", "runner": rn, "e": e}
                 if bind:
                     c["bind"] = bind
                 if as_json:
                     c["json"] = True
+                if raw:
+                    c["raw"] = True
                 cases.append(c)
         for i in range(110 if quick else 3000):
             add(*bound_expr(g, rng))
@@ -1451,6 +1649,12 @@ class C09(Prop):
                 add(b, e)
             for b, e, js in null_cases(g):
                 add(b, e, js)
+        # round 3: selection paths into nested documents; strings as plain code point sequences
+        for i in range(8 if quick else 200):
+            for b, e, js in path_cases(g):
+                add(b, e, js)
+            for b, e, js, raw in unicode_cases(g):
+                add(b, e, js, raw)
         for i in range(1000 if quick else 40000):
             cases.append({"kind": "re", "re": g.regex(rng.randint(1, 4)), "s": g.restr()})
         for i in range(60 if quick else 2000):
@@ -1481,7 +1685,8 @@ class C09(Prop):
                 return "err"
             return "T" if v else "F"
         try:
-            src = to_cel(c["e"])
+            with raw_strings(c.get("raw")):
+                src = to_cel(c["e"])
         except RecursionError:
             return "EXC RecursionError"
         return run_cel(src, c["runner"], c.get("bind"), bool(c.get("json")))
